@@ -347,8 +347,13 @@ def check_c13(run):
     r = rng(run.seed, "c13")
     names = r.sample(SP_NAMES, 2) + [r.choice(["q", "b", "x", "a"])]     # always one name that occurs in a start URL (in-place Set)
     values = r.sample(SP_VALUES, 2)
+    # one seed-chosen value per setter, plus the values that write a shared structure IN PLACE (clearing query / fragment strips
+    # the trailing spaces of an opaque path; an empty pathname / host rewrites the path / host)
     setters = sub_ops(run.seed, "c13", 1)
-    starts = ["http://u:p@h:8/a/b?q=1#f", "x://h/a?b=2", "file:///C:/d?x", "m:o?a=1"]
+    for extra in [("hash", ""), ("search", ""), ("pathname", "/n"), ("host", "h9")]:
+        if extra not in setters:
+            setters.append(extra)
+    starts = ["http://u:p@h:8/a/b?q=1#f", "x://h/a?b=2", "file:///C:/d?x", "m:o?a=1", "m:o  #f", "m:o  ?q#f"]
     fams = [
         ApiFamily("indep_d3", starts, setter_ops=setters, sp_ops=sp_ops(names, values, with_sort=False) + [("sort", "", ""), ("iterappend", "", "z")], refs=["x", "?n=1", "#g", "//o/p?r"],
                   depth=3 if q else 4, nh=3, clone=True, properties=("Independence",)),
@@ -486,6 +491,9 @@ def check_c07(run):
         HostFamily("v4radix", alphabet="0x8f.", maxlen=6 if q else 8, frames=frames[:1], invariants=["V4Inv"]),
         HostFamily("v4range", alphabet="2569.", maxlen=6 if q else 7, frames=frames[:1], invariants=["V4Inv"]),
     ]
+    # numbers at the edge of the machine word: 64-bit overflow in each radix followed by valid / invalid characters
+    big = ["0x" + "f" * 15, "0X" + "F" * 16, "9" * 18, "922337203685477580", "0" + "7" * 21, "01" + "7" * 21]
+    fams.append(HostFamily("v4overflow", alphabet="f97~.g", maxlen=3 if q else 4, frames=[("http://" + b, "/") for b in big] + [("http://a." + big[0], "/"), ("file://" + big[2], "/")]))
     run_host_families(run, fams, keys="std,ipv4")
     if not q:
         run_parse_families(run, [f for f in c01_families(run) if f.name in ("host", "ipv4deep")], keys="std,ipv4")
@@ -537,6 +545,15 @@ def check_c09(run):
     bases = C09_BASES if not q else r.sample(C09_BASES, 10) + ["localhost"]
     cls = HostFamily("domclass", mode="class", basehosts=bases, maxvar=2 if q else 3, frames=[("https://", "/"), ("file://", "/x")], invariants=["ClassInv"])
     run_host_families(run, [cls], keys="std")
+    # the pipeline AROUND ToASCII on mapped characters (full-width % / digits / dots, ideographic full stop, soft hyphen, ZWJ, sharp s, ...):
+    # every host over a seed-chosen alphabet up to length 3 is parsed by the real code (3 frames); TLC validates each event with the
+    # IDNA answer inferred from the log - percent-decoding, forbidden-code-point check and IPv4 recognition after the mapping are exact
+    pool = [0xFF05, 0xFF0F, 0xFF1A, 0xFF11, 0xFF0E, 0x3002, 0xAD, 0x200D, 0xFF21, 0xDF, 0x131, 0x2024, 0xFF10, 0xFF58, 0x212A, 0x2260]
+    alpha = r.sample(pool, 6 if q else 9) + [ord("a"), ord("."), ord("1"), ord("%")]
+    bad, nev = run.record_and_validate(0, seed_salt=9, host_alphabet=alpha, host_len=3)
+    mine = [(dict(ev, k="trace", **{"in": ev.get("a", [])}), [v for v in vs if not v.startswith("C03")]) for ev, vs in bad]
+    absorb_events(run, [(e, v) for e, v in mine if v], "idna-pipeline")
+    run.samples.append("[T-mode] %d parse events for every host over a %d-character alphabet of mapped / ignored / full-width characters, validated by TLC with the IDNA answer inferred from the log" % (nev, len(alpha)))
     run.assumptions.append("IDNA mapping of non-ASCII / ACE labels is taken as given; for them only the relation (same result for every spelling) and the output shape are checked")
     return run.finish("model_checking", "exact part: every pure-ASCII host over the alphabet (letters in both cases, digits, '-', '.', '_', '%41', '%2e', forbidden code points) replayed "
                       "in https and file URLs against the specification; relational part: for every base host (ASCII, mapped, ignored, bidi, joiner, full-width, ACE) TLC generates all "
@@ -926,6 +943,22 @@ def check_c02(run):
     mod = live.write(run.scratch, emit=False)
     run.tlc(mod, cfg=mod + ".cfg", timeout=900)
     run.samples.append("[design] <>done under weak fairness and PtrOk hold on the struct family: the specification's parser terminates on every input and never indexes outside it")
+    # the configuration quantifier: TLC enumerates the configurations (spec/MC_Config.tla)
+    bool_opts = ["report", "fail_on_ve", "lax_host", "collapse", "accept_invalid", "single_pct", "allow_path_nonbase", "skip_drive", "skip_trailing", "skip_equals"]
+    valued = ["special_gopher", "special_nofile", "latin1", "set_path", "small_path_set", "set_query", "set_sfrag", "pre_host_trim", "pre_host_const", "post_host_const",
+              "remove_userinfo", "remove_port", "remove_fragment", "repeated_decode", "sort_keys", "sort_param", "default_scheme"]
+    with open(os.path.join(run.scratch, "G_config.tla"), "w") as f:
+        f.write("---- MODULE G_config ----\nEXTENDS MC_Config\nF_Bool == {%s}\nF_Valued == {%s}\nF_Excl == {{\"special_gopher\", \"special_nofile\"}, {\"sort_keys\", \"sort_param\"}, "
+                "{\"set_path\", \"small_path_set\"}, {\"pre_host_trim\", \"pre_host_const\"}}\n====\n" % (", ".join('"%s"' % o for o in bool_opts), ", ".join('"%s"' % o for o in valued)))
+    with open(os.path.join(run.scratch, "G_config.cfg"), "w") as f:
+        f.write("CONSTANTS\n BoolOpts <- F_Bool\n ValuedOpts <- F_Valued\n Mode = \"%s\"\n Valued = %d\n Exclusive <- F_Excl\nINIT Init\nNEXT Next\nINVARIANT Emit\nCHECK_DEADLOCK FALSE\n"
+                % ("pairwise" if q else "all", 2 if q else 1))
+    cout, cst = run.tlc("G_config", cfg="G_config.cfg", timeout=600)
+    cfgfile = os.path.join(run.scratch, "configs.txt")
+    with open(cfgfile, "w") as f:
+        f.write("\n".join(l for l in cout.splitlines() if l.startswith('"')) + "\n")
+    run.coverage_notes["configurations_enumerated_by_tlc"] = cst["distinct"]
+    run.samples.append("[MC_Config] TLC enumerates %d configurations (%s subsets of the 10 boolean options x up to %d valued options)" % (cst["distinct"], "pairwise" if q else "all 2^10", 2 if q else 1))
     nasty = [
         Family("nasty", [0x110080, 0x1100FF, 0x1100C0, 0, ord("/"), ord(":"), ord("@"), ord("%"), ord("["), ord("\\"), ord("?"), ord("#"), ord(L), ord("|")], 2 if q else 3,
                prefixes=["", "http://", "http://h/", "file:", "x:", "x://", "http://h:", "//"], invariants=["PtrOk"]),
@@ -934,7 +967,7 @@ def check_c02(run):
     for fam in nasty:
         mod = fam.write(run.scratch)
         bad, n = run.tlc_events(mod, fam.name, "robust", cfg=mod + ".cfg", chunks=12, tool="robust",
-                                events_args=["--seed", str(run.seed), "--tier", run.tier, "--cfg-per-input", "6" if q else "24"])
+                                events_args=["--seed", str(run.seed), "--tier", run.tier, "--cfg-per-input", "6" if q else "24", "--configs", cfgfile])
         absorb_robust(run, bad, fam.name)
         run.distinct += n
     # pumped long inputs and degenerate ones
@@ -946,7 +979,7 @@ def check_c02(run):
     with open(pf, "w") as f:
         for s_ in longs:
             f.write(json.dumps(json.dumps({"t": "u", "in": cps(s_)})) + "\n")
-    bad, n = run.tlc_events(None, "long", "robust", source_file=pf, chunks=4, tool="robust", events_args=["--seed", str(run.seed), "--tier", run.tier, "--cfg-per-input", "40" if q else "200"])
+    bad, n = run.tlc_events(None, "long", "robust", source_file=pf, chunks=4, tool="robust", events_args=["--seed", str(run.seed), "--tier", run.tier, "--cfg-per-input", "40" if q else "200", "--configs", cfgfile])
     absorb_robust(run, bad, "long")
     run.distinct += n
     run.samples.append("robust event: {cfg: 'lax_host+accept_invalid', in: 'http://\\xff\\xfe/', calls: ~900 public calls (parse, 8 bases, resolve, clone, 9 setters x 16 nasty values, SearchParams ops, getters), bad: []}")
